@@ -1,6 +1,7 @@
 import MpVerif.C01.ModelGadgets
 import MpVerif.C01.ModelProp
 import MpVerif.C01.ModelCompose
+import MpVerif.C01.ModelObjective
 /-!
 Line driver for C01 (exe `drv_c01`).  One op per line:
 
@@ -167,6 +168,12 @@ def parseRoot? (s : String) : Option Root :=
   | [l, lb, ub] => do some { body := ← parseList parseTerm? l, lb := ← parseBound? lb, ub := ← parseBound? ub }
   | _ => none
 
+def parseQRoot? (s : String) : Option QRoot :=
+  match s.splitOn ";" with
+  | [l, q, lb, ub] => do
+    some { lin := ← parseList parseTerm? l, quad := ← parseList parseQTerm? q, lb := ← parseBound? lb, ub := ← parseBound? ub }
+  | _ => none
+
 def parseBar {α} (f : String → Option α) (s : String) : Option (List α) :=
   if s == "" then some [] else (s.splitOn "|").mapM f
 
@@ -274,8 +281,23 @@ def runOp (g : String) (a : Args) : Option String := do
     let roots ← (a.get? "roots").getD "" |> parseBar parseRoot?
     let n0 := (a.nat? "n0").getD 0
     let gaps := ctxGaps B defs roots
-    some (s!"valid wf={if wfB n0 defs then 1 else 0} gaps={gaps.length} " ++
-      " ".intercalate (gaps.map fun (v, need, have_) => s!"{v}:{need.toString}>{have_.toString}"))
+    -- optional objective `objsense=min|max objlin=… objquad=…`: hypothesis ObjCovers of C01_compose_objective
+    let osense ← match a.get? "objsense" with
+      | some "min" => some (some Sense.min) | some "max" => some (some Sense.max) | none => some none | _ => none
+    let olin ← match a.get? "objlin" with | some t => parseList parseTerm? t | none => some []
+    let oquad ← match a.get? "objquad" with | some t => parseList parseQTerm? t | none => some []
+    let ogaps : List (Var × Ctx × Ctx) :=
+      match osense with
+      | some sense => objGaps B defs { sense := sense, lin := olin, quad := oquad }
+      | none => []
+    -- optional quadratic roots `qroots=lin;quad;lb;ub|…`: hypothesis QRootsCover of C01_compose_quadroots
+    let qroots ← (a.get? "qroots").getD "" |> parseBar parseQRoot?
+    let qgaps := qrootGaps B defs qroots
+    let fmt := fun (l : List (Var × Ctx × Ctx)) =>
+      " ".intercalate (l.map fun (v, need, have_) => s!"{v}:{need.toString}>{have_.toString}")
+    some (s!"valid wf={if wfB n0 defs then 1 else 0} gaps={gaps.length} " ++ fmt gaps ++
+      (if osense.isSome then s!" | objgaps={ogaps.length} " ++ fmt ogaps else "") ++
+      (if (a.get? "qroots").isSome then s!" | qgaps={qgaps.length} " ++ fmt qgaps else ""))
   | "propfun" => do   -- PropagateResult(<functional constraint>&, ..., ctx): contexts handed to the arguments
     let cx ← a.ctx?
     let ty ← a.get? "type"
